@@ -53,3 +53,6 @@ add("C05", "c05", "exploration", 600, 12000,
 
 add("C12", "c12", "exploration", 1500, 40000, exhaustive_if=["FilterWrappersExhaustive2Repos"],
     assumptions=["policies are pure functions of (name, access kind) as the property states", "backend is a recorder that accepts every call"])
+
+add("C13", "c13", "exploration", 500, 10000,
+    assumptions=["the restricted registry is played by a second ocimem driven with the unprefixed names", "registries treat repository names as opaque strings (a name with dot segments is passed below the prefix verbatim and rejected or not found there)"])
